@@ -109,6 +109,9 @@ static void c20_run(const Case &c, Result &r) {
     } else if (o.k == "probe") {
       Solution s;
       if (!sut_fetch_solution(p, s, &why)) failing_call_seen = true;
+      AccessorProbe ap;
+      sut_probe_accessors(p, ap);       // each accessor on its own: the combined fetch stops at the first refusal
+      if (ap.nfail) { failing_call_seen = true; r.label("probe:some-accessor-refused"); }
       what = "solution accessors";
     } else if (o.k == "loadbasis") {
       if (o.s.size() >= 2 && (int)o.s[0].size() == m.n() && (int)o.s[1].size() == m.m()) {
